@@ -672,8 +672,14 @@ func timeToValue(fr *frame, t time.Time) value {
 	sec := t.Unix() + 62135596800
 	z[0] = uint64(t.Nanosecond())
 	z[1] = sec
-	if _, off := t.Zone(); off != 0 || t.Location() != time.UTC {
-		cur.approx("time.Parse result with a non-UTC zone: location dropped (instant kept)")
+	if name, off := t.Zone(); off != 0 || t.Location() != time.UTC {
+		// a fixed-offset location, built by the target's own time.FixedZone
+		if fz := fr.i.prog.ImportedPackage("time").Func("FixedZone"); fz != nil && t.Location().String() == "" {
+			z[2] = call(fr.i, fr, token.NoPos, fz, []value{"", off})
+		} else if fz != nil {
+			z[2] = call(fr.i, fr, token.NoPos, fz, []value{name, off})
+			cur.approx("time.Parse result in a named zone: modelled as a fixed offset")
+		}
 	}
 	return z
 }
